@@ -81,13 +81,13 @@ pub fn e1_jobs(prop: &str, tier: Tier) -> (Vec<E1Job>, usize) {
         "C02" => if q { vec![pb(3), pbs(4), pbj(4), pd(5), pdj(4), pill(4), ped(4)] } else { vec![pb(4), pbs(5), pbj(5), pd(6), pdj(5)] },
         "C03" => if q { vec![pd(5), pdj(5), pf(4), pe(1, true, 2), pill(4)] } else { vec![pd(6), pdj(6), pf(5), pe(2, true, 2)] },
         "C04" => if q { vec![pa1(3), pbs(3), pc(6), paj(4), pd(4), pe(1, true, 2), pf(4), pill(4), E1Job { profile: Profile::S, depth: 2, alt_map: false }, pc3(8)] } else { vec![pa(3), pbs(4), pc(8), pd(5), pe(2, true, 2), pf(5)] },
-        "C07" => if q { vec![pe(1, true, 2), pe(2, true, 1), pe(1, false, 3), ped(4)] } else { vec![pe(2, true, 2), pe(1, true, 3), ped(5)] },
+        "C07" => if q { vec![pe(1, true, 2), pe(2, true, 1), pe(1, false, 3), ped(4), E1Job { profile: Profile::S, depth: 2, alt_map: false }] } else { vec![pe(2, true, 2), pe(1, true, 3), ped(5), E1Job { profile: Profile::S, depth: 3, alt_map: false }] },
         "C10" => if q { vec![pa(3), pb(3), pbs(4), pbj(4), pc(6), pd(6), pdj(5), paj(4), pa15(4), pill(4), E1Job { profile: Profile::S, depth: 2, alt_map: false }] } else { vec![pa(3), pa1(4), pb(4), pbs(5), pc(8), pd(7)] },
         "C12" => if q { vec![pf(4)] } else { vec![pf(6)] },
         "C13" => if q { vec![pf(5), pe(1, true, 2), pe(2, true, 1), paj(3), E1Job { profile: Profile::S, depth: 3, alt_map: false }] } else { vec![pf(5), pe(2, true, 2), E1Job { profile: Profile::S, depth: 3, alt_map: false }] },
         "C04x" => vec![],
         "C18" => if q { vec![pill(4), pc(7), pbs(3), pbj(4), pn(3), paj(4), pc3(9)] } else { vec![pill(5), pc(8), pc3(10), paj(5), pb(4), pbj(5), pn(4), pe(1, true, 2)] },
-        "C19" => if q { vec![pa15(3), pb(3), pd(5), pe(1, true, 2), pc(5), paj(4), pill(5), E1Job { profile: Profile::S, depth: 2, alt_map: false }] } else { vec![pa(3), pb(3), pbs(4), pd(5), pe(1, true, 2), pc(6), pf(4), paj(5), paj5(4), E1Job { profile: Profile::S, depth: 3, alt_map: false }] },
+        "C19" => if q { vec![pa15(3), pb(3), pd(5), pe(1, true, 2), pc(5), paj(4), pill(5), ped(3), E1Job { profile: Profile::S, depth: 2, alt_map: false }] } else { vec![pa(3), pb(3), pbs(4), pd(5), pe(1, true, 2), pc(6), pf(4), paj(5), paj5(4), ped(4), E1Job { profile: Profile::S, depth: 3, alt_map: false }] },
         "C20" => if q { vec![pn(4), pill(4), pb(3), pc(7), pd(5), pe(1, true, 2), paj(4), pa15(3), pf(3)] } else { vec![pn(5), pb(4), pc(8), pd(6), pe(1, true, 2), pf(4)] },
         _ => vec![],
     };
@@ -532,8 +532,37 @@ pub fn e2_jobs(prop: &str, tier: Tier) -> Vec<E2Job> {
             }
         }
         jobs.push(E2Job { label: "async scripts over <= 2-op plans: polling / accessors between dispatch and wait (thread-local plans), a second dispatch after a poll".into(), scenarios: scs, bounds: b(if q { 0 } else { 1 }), delay: false });
+        {
+            // the dispatcher is dropped right after dispatch() (or after a second one): the dispatch is carried out all the same
+            let mut scs_k = Vec::new();
+            let sy = |n: &str, w: &[u8]| Op::Sys(crate::spec::SysSpec { name: n.into(), reads: vec![], writes: w.to_vec(), time: 3, deps: vec![] });
+            let mut plans: Vec<Vec<Op>> = core(vec![3], 2);
+            plans.push(vec![sy("a", &[0]), sy("b", &[0]), sy("c", &[0])]);
+            plans.push(vec![sy("a", &[0]), Op::Barrier, sy("b", &[]), sy("c", &[1]), Op::Barrier, sy("d", &[0])]);
+            for p in plans {
+                for script in ["DK", "DDK", "DRK"] {
+                    let mut sc = Scenario::plain(p.clone(), Mode::Async, 0);
+                    sc.script = Some(script.to_string());
+                    scs_k.push(sc);
+                }
+            }
+            jobs.push(E2Job { label: "async scripts DK, DDK, DRK: the dispatcher is dropped while a dispatch may be in flight (plans of <= 2 ops, three stages, barriers)".into(), scenarios: scs_k, bounds: b(1), delay: false });
+        }
         jobs.push(E2Job { label: "async scripts over <= 2-op plans: two back-to-back dispatch() calls (DD)".into(), scenarios: scs_b2b, bounds: b(1), delay: false });
         jobs.push(E2Job { label: "async scripts over <= 2-op plans: three back-to-back dispatch() calls, two and a wait (DDD, DDW)".into(), scenarios: scs_b2b3, bounds: b(if q { 0 } else { 1 }), delay: false });
+    }
+    if prop == "C05" {
+        // the async front end: `dispatch ... wait` rounds with polling / other accessors in between leave the same
+        // world and system states as sequential rounds (thread-local systems included)
+        let mut scs = Vec::new();
+        for p in tl(2).into_iter().chain(core(vec![3], 2)) {
+            for script in ["DW", "DRW", "DOW", "DXW", "DMW", "DWDW", "DRWDOW", "DXWDW"] {
+                let mut sc = Scenario::plain(p.clone(), Mode::Async, 0);
+                sc.script = Some(script.to_string());
+                scs.push(sc);
+            }
+        }
+        jobs.push(E2Job { label: "async scripts of dispatch ... wait rounds (polling, world(), world_mut(), wait_without_tl() in between) over thread-local and core plans of <= 2 ops, against sequential rounds".into(), scenarios: scs, bounds: b(if q { 0 } else { 1 }), delay: false });
     }
     if prop == "C04" || prop == "C05" {
         // dispatch entered from a worker of a FOREIGN pool (of 1 or 2 threads): the dispatcher's own pool (user-supplied
